@@ -239,8 +239,8 @@ func (h *H) runSched(sc schedScenario, dl time.Time) *ScenarioReport {
 		if len(st.Sample) > 0 {
 			r.Samples = []any{map[string]any{"scenario": sc.name, "bound": b, "schedule": st.Sample}}
 		}
-		r.Violations = nil
-		r.ViolationCount = nil
+		// violations accumulate over the bounds (deduplicated by key): an oracle that reports a thing once per
+		// process - the race detector - does not repeat at bound b+1 what it reported at bound b
 		mergeViol(r, st)
 	}
 	r.Complete = r.BoundCompleted == target
@@ -265,7 +265,9 @@ func mergeViol(r *ScenarioReport, st *verifrt.Stats) {
 			"kind": "sched", "scenario": st.Name, "choices": v.Choices, "preemptions": v.Preempt, "schedule": v.Schedule, "log": v.Log}})
 	}
 	for k, n := range st.ViolationCount {
-		r.ViolationCount[k] += n
+		if n > r.ViolationCount[k] {
+			r.ViolationCount[k] = n // a higher bound re-explores the lower one: keep the larger count
+		}
 	}
 }
 
